@@ -733,14 +733,16 @@ class ClusterSuite(Suite):
                 if o["submitter_after"] != "missing" and (o["submitter_after"] is not None) != bool(o["holders_after"]):
                     v.append(Violation("C10", "mutex.submitter_field", f"{where}: submitter field {o['submitter_after']!r} but role holders {o['holders_after']}"))
             # ---- C10 (b): promotion while the role is held is refused and writes nothing
+            #      (after a FAILED WRITE the submitter field on disk may lag behind what the process that failed holds - its demotion
+            #      wrote the version file and not the data file: that handle's own calls are outside (b) and (b'))
             if k in ("load", "promote") and (k == "promote" or op["promote"]) and not o["marker_before"] \
-                    and o["submitter_before"] not in (None, "missing") and (k == "load" or not o["forged_before"]):
+                    and o["submitter_before"] not in (None, "missing") and (k == "load" or not (o["forged_before"] or o.get("faulted_before"))):
                 if res == {"bool": True}:
                     v.append(Violation("C10", "promote.while_held", f"{where}: promoted although host{o['submitter_before']} holds the role"))
                 if o["changed"]:
                     v.append(Violation("C10", "promote.refused_but_wrote", f"{where}: refused promotion changed {o['changed']}"))
             # ---- C10 (b'): the code's own guard — only a handle on the submitter's host can clear the role
-            if k == "demote" and res == "ok" and not o["forged_before"]:
+            if k == "demote" and res == "ok" and not o["forged_before"] and not o.get("faulted_before"):
                 if o["submitter_before"] in (None, "missing") or hostname(o["submitter_before"]) != o.get("handle_host"):
                     v.append(Violation("C10", "demote.foreign_host", f"{where}: handle on {o.get('handle_host')} cleared the role "
                                        f"of submitter {o['submitter_before']!r}"))
